@@ -27,10 +27,16 @@ type W struct {
 	Rand []string `json:"rand,omitempty"`
 	C2S  []int    `json:"c2s,omitempty"` // sizes of client Write calls
 	S2C  []int    `json:"s2c,omitempty"` // sizes of server Write calls
-	// Conn: how the underlying connection hands out bytes (both directions): "whole" | "one" | "every7"
+	// Conn: how the underlying connection hands out bytes (both directions): "whole" | "one" | "every7" |
+	// "cut:<p>" (one Read ends exactly at stream offset p)
 	Conn string `json:"conn"`
 	// Buf: size of the buffer passed to Read on the receiving Obfuscated2 (0 = 64 KiB)
 	Buf int `json:"buf,omitempty"`
+	// EOFWithData: informational only. The underlying connection returns its last chunk together
+	// with io.EOF (legal for an io.Reader, never done by a TCP connection). The statement speaks of
+	// read chunkings, not of error signalling, so the result is recorded as an outcome, never as a
+	// violation.
+	EOFWithData bool `json:"eof_with_data,omitempty"`
 }
 
 var reservedBlocks = map[string][]byte{
@@ -84,6 +90,10 @@ func connChunk(name string) rt.Chunking {
 		return rt.OneByte()
 	case "every7":
 		return rt.Every(7)
+	}
+	var p int
+	if _, err := fmt.Sscanf(name, "cut:%d", &p); err == nil && p > 0 {
+		return rt.CutAt(p)
 	}
 	panic("unknown conn chunking " + name)
 }
@@ -183,6 +193,9 @@ func eval(w W) kit.Result {
 
 	// accepting side
 	serverConn := rt.NewConn(clientConn.W, connChunk(w.Conn))
+	if w.EOFWithData {
+		serverConn.R.(*rt.ScriptReader).EOFWithData = true
+	}
 	rw, md, err := obfuscated2.Accept(serverConn, secret)
 	if err != nil {
 		return kit.Bad("accept-error", "Accept: %v", err)
@@ -196,6 +209,14 @@ func eval(w W) kit.Result {
 	got, err := readAll(rw, w.Buf)
 	if err != nil {
 		return kit.Bad("c2s-read-error", "server Read: %v", err)
+	}
+	if w.EOFWithData {
+		r := kit.OKo("info:eof-with-data:intact")
+		if !bytes.Equal(got, c2sAll) {
+			r = kit.OKo("info:eof-with-data:last-chunk-returned-undecrypted")
+		}
+		r.Trivial = true
+		return r
 	}
 	if !bytes.Equal(got, c2sAll) {
 		return kit.Bad("c2s-data", "server read %d bytes, client wrote %d; first difference at %d", len(got), len(c2sAll), firstDiff(got, c2sAll))
@@ -269,7 +290,7 @@ func main() {
 		}
 		c.Rule("(A) metadata: clients {td Obfuscated2.Handshake, reference client from the spec} x tags {efefefef, eeeeeeee, dddddddd, 00000000, ffffffff, 01020304, efeeddcc} x DC {-32768,-10002,-10001,-3,-2,-1,0,1,2,3,4,5,10001,10002,10005,32767} x secrets {none, 2 pseudo-random 16 B, 16 zero bytes} x " +
 			"random sources for the td client: plain stream, and streams whose first 1 or 3 64-byte blocks start with each reserved pattern {ef, HEAD, POST, GET , OPTI, 16030102, dddddddd, eeeeeeee, second int 0, efefefefefefefef, ef+zero}, all 9 in a row, and 7 near-miss blocks that differ from a reserved pattern in one byte (must be accepted); " +
-			"(B) data: write sequences of length <=3 over {0,1,15,16,17,64,1000} bytes, the same sequence shape in both directions (quick: length <=2 plus 40 triples), x secrets {none, a} (thorough + b) x tags (thorough: ef, ee, dd; quick: ee) x underlying connection chunking {whole, 1 byte, 7 bytes} x Read buffer size {1, 7, 64 KiB}. " +
+			"(B) data: write sequences of length <=3 over {0,1,15,16,17,64,1000} bytes, the same sequence shape in both directions (quick: length <=2 plus 40 triples), x secrets {none, a} (thorough + b) x tags (thorough: ef, ee, dd; quick: ee) x underlying connection chunking {whole, 1 byte, 7 bytes} x Read buffer size {1, 7, 64 KiB}; every single split point of the wire stream (64-byte header included) for 5 write shapes x 2 secrets x 2 buffers. " +
 			"Oracle: Accept returns the client's tag and DC; bytes read by the peer equal the bytes written, in both directions; the 64-byte header does not start with a reserved pattern; and (reference model) the header decrypts to tag/DC and both wire streams equal AES-256-CTR under the key schedule of the specification. distinct = distinct witnesses.")
 		c.Assume("reference key schedule in lib/reftransport written from core.telegram.org/mtproto/mtproto-transports#transport-obfuscation on crypto/aes, crypto/cipher, crypto/sha256; the scripted connection reports EOF separately from data (like TCP); DC ids outside int16 are out of scope (the wire field has 16 bits)")
 
@@ -343,6 +364,24 @@ func main() {
 					}
 				}
 			}
+		}
+		// every single split point of the wire streams (header included) for a few shapes
+		for _, sh := range [][]int{{1}, {16}, {17, 64}, {15, 16, 17}, {1000, 1, 64}} {
+			total := 64
+			for _, n := range sh {
+				total += n
+			}
+			for _, sec := range []string{"none", "stream:c18sa"} {
+				for p := 1; p < total; p++ {
+					for _, buf := range []int{7, 0} {
+						add(W{Client: "td", Tag: "dddddddd", DC: -3, Secret: sec, C2S: sh, S2C: sh, Conn: fmt.Sprint("cut:", p), Buf: buf})
+					}
+				}
+			}
+		}
+		// informational: last chunk delivered together with io.EOF
+		for _, conn := range []string{"whole", "every7"} {
+			add(W{Client: "td", Tag: "eeeeeeee", DC: 2, Secret: "none", C2S: []int{17, 64}, Conn: conn, EOFWithData: true})
 		}
 		c.Set("cases_planned", len(ws))
 		kit.Parallel(len(ws), 16, func(i int) {
